@@ -49,9 +49,15 @@ class Under(io.RawIOBase):
         self.data, self.pos, self.k, self.err_at, self.ncalls, self.has = data, 0, k, err_at, 0, has_readinto
         self.branch = set()
         self.raised = False
+        # the body does not start at offset 0 of what the server reads from (one buffer per connection that held the
+        # request head and earlier requests): tell() reports the absolute position, which is none of the body's business
+        self.base = ((len(data) + k) % 4) * 5
 
     def readable(self):
         return True
+
+    def tell(self):
+        return self.base + self.pos
 
     def _take(self, n):
         if self.closed:
@@ -680,6 +686,67 @@ def streams_made_and_dropped_first(W, rec):
             return
 
 
+def bodies_read_on_six_threads(W, rec):
+    """Schedule: six requests read their bodies at once, each through its own stream over its own input, in the path
+    that asks the input for more than the body has left (a buffering reader, read(n) beyond the end); the input yields
+    the processor inside its readinto.  Every thread gets the bytes its own client sent."""
+    import sys
+    import threading
+    import time as _time
+
+    LS = W["LimitedStream"]
+
+    class Yielding(io.RawIOBase):
+        def __init__(self, data):
+            self.data, self.pos = data, 0
+
+        def readable(self):
+            return True
+
+        def readinto(self, b):
+            d = self.data[self.pos:self.pos + min(len(b), 7)]
+            self.pos += len(d)
+            b[:len(d)] = d
+            _time.sleep(0)  # (a socket read is where a thread waits)
+            return len(d)
+
+    old = sys.getswitchinterval()
+    sys.setswitchinterval(1e-5)
+    errs = []
+    try:
+        def work(i):
+            body = (b"user=%d&token=" % i) + bytes([65 + i]) * (20 + i)
+            for n in range(150):
+                extra = b"NEXT-REQUEST" if n % 2 else b""
+                st = LS(Yielding(body + extra), len(body))
+                how = n % 3
+                got = io.BufferedReader(st, 64).read() if how == 0 else st.read(len(body) + 50) + st.read(10) if how == 1 else b"".join(iter(lambda: st.read(64), b""))
+                if how == 1:
+                    # read(n) may return fewer bytes than asked for: drain
+                    while len(got) < len(body):
+                        more = st.read(64)
+                        if not more:
+                            break
+                        got += more
+                if got != body:
+                    errs.append((i, n, how, got, body))
+                    return
+
+        ths = [threading.Thread(target=work, args=(i,)) for i in range(6)]
+        for t in ths:
+            t.start()
+        for t in ths:
+            t.join()
+    finally:
+        sys.setswitchinterval(old)
+    rec.case()
+    rec.nontrivial(("bodies-on-six-threads",))
+    rec.observe("bodies_read_on_six_threads", 900)
+    if errs:
+        i, n, how, got, body = errs[0]
+        rec.violation("C09/stream-yields-bytes-the-client-did-not-send", f"thread {i}, request {n} (reader {how}): the stream yielded {got!r}, its client sent {body!r}", {"part": "bodies-on-six-threads"}, monitor="prefix")
+
+
 def world():
     from werkzeug import wsgi
     from werkzeug.wrappers import Request
@@ -703,6 +770,8 @@ def run(shard, rec, rng):
         nested_streams(W, rec)
         request_histories(W, rec)
         streams_made_and_dropped_first(W, rec)
+        with rec.guard({"part": "bodies-on-six-threads"}, "C09"):
+            bodies_read_on_six_threads(W, rec)
         reach.finish()
         contracts.report(rec)
         return
